@@ -812,6 +812,87 @@ fn e9_map_exits(out: &mut Vec<Edge>) {
     }
 }
 
+// ---------------------------------------------------------------------------------------------
+// E10: a callee that returns early from inside nested operands, and a caller that uses the
+// returned value in a type-sensitive way (batched: 100 callee/caller pairs per document)
+
+fn e10_pairs() -> Vec<(String, String)> {
+    // (callee body text with the function named `callee`, caller consumption)
+    let g = Gen::new();
+    let mut out = Vec::new();
+    for (ty, e) in g.never_nested() {
+        let consume = match ty {
+            Ty::Int => "return saturating_add(v, 1)",
+            Ty::Bool => "if !v { return 1 } return 0",
+            Ty::S | Ty::S2 | Ty::T => "return saturating_add(v.a, 1)",
+            Ty::OptInt => "match v { Some(q) => { return saturating_add(q, 1) } None => { return 0 } }",
+            Ty::ResIB => "match v { Ok(q) => { return saturating_add(q, 1) } Err(w) => { if w { return 1 } return 0 } }",
+            _ => continue,
+        };
+        let def = FnDef {
+            name: "callee".into(),
+            params: PARAMS.iter().map(|(n, t)| (n.to_string(), *t)).collect(),
+            ret: ty,
+            body: vec![Stmt::Return(e)],
+        };
+        out.push((print_fn(&def), consume.to_string()));
+    }
+    out
+}
+
+fn run_e10_batch(rep: &mut Report, pairs: &[(String, String)], tuples: &[Vec<Value>]) {
+    let call_args = PARAMS.iter().map(|(n, _)| *n).collect::<Vec<_>>().join(", ");
+    let mut text = format!("{PRELUDE}{}", gen::HELPERS);
+    for (k, (callee, consume)) in pairs.iter().enumerate() {
+        text.push_str(&callee.replacen("function callee(", &format!("function callee{k}("), 1));
+        text.push('\n');
+        text.push_str(&format!("function f{k}({}) int {{ let v = callee{k}({call_args}) {consume} }}\n", sig()));
+    }
+    let machine = match vmrun::compile_text_quiet(&text, Ffi::None) {
+        Ok(m) => Machine::from_module(m).unwrap_or_else(|_| mcx::machinery_error("module version")),
+        Err(_) => {
+            if pairs.len() == 1 {
+                rep.count("edge_candidates", 1);
+                rep.count("edge_rejected_by_compiler", 1);
+                return;
+            }
+            let mid = pairs.len() / 2;
+            run_e10_batch(rep, &pairs[..mid], tuples);
+            run_e10_batch(rep, &pairs[mid..], tuples);
+            return;
+        }
+    };
+    for (k, (callee, consume)) in pairs.iter().enumerate() {
+        rep.count("edge_candidates", 1);
+        rep.count("edge_accepted", 1);
+        rep.count("programs", 1);
+        rep.count("accepted_early_return_callees", 1);
+        for (ti, t) in tuples.iter().enumerate() {
+            let mut io = RecIo::new();
+            let mut steps = 0u64;
+            let out = vmrun::run_function(&machine, &mut io, &format!("f{k}"), t, &mut steps);
+            rep.count("transitions", steps);
+            rep.count("states", 1);
+            rep.count("traces_validated_against_impl", 1);
+            rep.count("disagreements_checked", 1);
+            match &out {
+                Outcome::Error(kind, msg) => {
+                    rep.outcome(&format!("error_{kind}"), 1);
+                    if c22::internal_kind(kind) {
+                        let prog = format!("{callee} function f({}) int {{ let v = callee({call_args}) {consume} }}", sig());
+                        rep.violation(
+                            prog.clone(),
+                            format!("accepted program went wrong (tuple {ti}): {kind}: {msg}"),
+                            json!({"program": prog, "tuple": ti, "family": "early_return_callees"}),
+                        );
+                    }
+                }
+                o => rep.outcome(o.class(), 1),
+            }
+        }
+    }
+}
+
 fn stores() -> Vec<RecIo> {
     let fkey = |k: i64| vec![FactKey::new(ident!("k"), HashableValue::Int(k))];
     let fval = |v: i64| vec![FactValue::new(ident!("v"), Value::Int(v))];
@@ -869,7 +950,8 @@ fn clone_store(s: &RecIo) -> RecIo {
 fn run_edge(rep: &mut Report, e: &Edge, tuples: &[Vec<Value>], stores: &[RecIo]) {
     rep.count("edge_candidates", 1);
     // helper declarations only when the candidate mentions them (keeps the per-candidate compile small)
-    let helpers = if e.text.contains("h_") { gen::HELPERS } else { "" };
+    let mentions = |t: &str| t.contains("h_") || t.contains("h3(") || t.contains("h4(");
+    let helpers = if mentions(&e.text) || mentions(e.extra_decls) { gen::HELPERS } else { "" };
     let text = format!("{PRELUDE}{helpers}{}{}\n", e.extra_decls, e.text);
     let machine = match vmrun::compile_text_quiet(&text, Ffi::None) {
         Ok(m) => Machine::from_module(m).unwrap_or_else(|_| mcx::machinery_error("module version")),
@@ -1013,6 +1095,21 @@ pub fn run(args: &Args) {
         rep.absorb(w);
     }
     rep.set("wall_after_edges_s", rep.elapsed().as_secs_f64());
+    // (2b) early-return callees, batched
+    {
+        let pairs = e10_pairs();
+        let workers: Vec<Report> = pairs
+            .par_chunks(100)
+            .map(|chunk| {
+                let mut w = rep.worker();
+                run_e10_batch(&mut w, chunk, &vm_tuples);
+                w
+            })
+            .collect();
+        for w in workers {
+            rep.absorb(w);
+        }
+    }
     // (3) command policies with policy / recall / finish
     let policies: Vec<Vec<Stmt>> = c30::corpus(Tier::Quick).into_iter().filter(|p| args.tier == Tier::Thorough || c30::stmt_size(p) <= 3).collect();
     c30::run_policies(&mut rep, &policies, true);
@@ -1026,6 +1123,7 @@ pub fn run(args: &Args) {
     rep.require_nonzero("accepted_map_loops");
     rep.require_nonzero("accepted_actions");
     rep.require_nonzero("accepted_self_referential_bindings");
+    rep.require_nonzero("accepted_early_return_callees");
     rep.finish()
 }
 
